@@ -179,7 +179,12 @@ func (c *RepoCache) lock(events chan BuildEvent) error {
 
 	verifYield("lock:after-available")
 
-	f, err := c.repo.LocalStorage().Create(lockfile)
+	// O_EXCL: when two processes find the repository free at the same time, only one of them
+	// creates the lock file
+	f, err := c.repo.LocalStorage().OpenFile(lockfile, os.O_WRONLY|os.O_CREATE|os.O_EXCL, 0666)
+	if os.IsExist(err) {
+		return lockedError(c.repo)
+	}
 	if err != nil {
 		return err
 	}
@@ -194,6 +199,18 @@ func (c *RepoCache) lock(events chan BuildEvent) error {
 	c.locked = true
 
 	return f.Close()
+}
+
+// lockedError tells which process holds the lock file that has just been found in place.
+func lockedError(repo repository.RepoStorage) error {
+	if f, err := repo.LocalStorage().Open(lockfile); err == nil {
+		buf, _ := io.ReadAll(io.LimitReader(f, 10))
+		_ = f.Close()
+		if pid, err := strconv.Atoi(string(buf)); err == nil {
+			return fmt.Errorf("the repository you want to access is already locked by the process pid %d", pid)
+		}
+	}
+	return fmt.Errorf("the repository you want to access has just been locked by another process")
 }
 
 func (c *RepoCache) Close() error {
